@@ -18,7 +18,7 @@ import ast
 
 from ..core import AnalysisError, norm, loc, walk_no_nested, attr_chain, call_name, kwarg
 from ..cfg import CFG
-from ..normalize import inline, local_env, expand, ctext, canon
+from ..normalize import inline, local_env, expand, ctext, canon, conjuncts, _enclosing
 from .. import nxgraph as nxg
 from .. import flow
 
@@ -408,15 +408,54 @@ def run(prog, rep):
     ldom = lcfg.dominators()
     ins_ = [c for c in walk_no_nested(lw) if isinstance(c, ast.Call) and call_name(c) == 'add_node']
     iparam_ = 'interfaces'
+    lenv_ = local_env(lw)
+
+    def exists_of(e, var):
+        """is ``e`` the test "the node <var> exists (as a ConnectionPoint)"?"""
+        if not (isinstance(e, ast.Call) and call_name(e) == 'node_exists'):
+            return False
+        nid = kwarg(e, 'node_id') or (e.args[0] if e.args else None)
+        return isinstance(nid, ast.Name) and nid.id == var
+
+    def over_ifs(gens):
+        return len(gens) == 1 and isinstance(gens[0].target, ast.Name) and isinstance(gens[0].iter, ast.Name) and gens[0].iter.id == iparam_
+
+    def missing_gen(g):
+        """generator / comprehension producing the interface ids that do NOT exist"""
+        if not isinstance(g, (ast.GeneratorExp, ast.ListComp, ast.SetComp)) or not over_ifs(g.generators):
+            return False
+        v = g.generators[0].target.id
+        ifs_ = [canon(x) for x in g.generators[0].ifs]
+        return len(ifs_) == 1 and isinstance(ifs_[0], ast.UnaryOp) and isinstance(ifs_[0].op, ast.Not) and exists_of(ifs_[0].operand, v) and \
+            isinstance(g.elt, ast.Name) and g.elt.id == v
+
+    def says_all_exist(cj):
+        """does the (canonical) condition ``cj`` state that every id in ``interfaces`` exists?"""
+        cj = canon(expand(cj, lenv_))
+        # all(exists(i) for i in interfaces)
+        if isinstance(cj, ast.Call) and isinstance(cj.func, ast.Name) and cj.func.id == 'all' and cj.args and \
+                isinstance(cj.args[0], (ast.GeneratorExp, ast.ListComp)) and over_ifs(cj.args[0].generators) and not cj.args[0].generators[0].ifs and \
+                exists_of(cj.args[0].elt, cj.args[0].generators[0].target.id):
+            return True
+        # not [i for i in interfaces if not exists(i)]   /   next((i for ... if not exists(i)), None) is None
+        if isinstance(cj, ast.UnaryOp) and isinstance(cj.op, ast.Not) and missing_gen(cj.operand):
+            return True
+        if isinstance(cj, ast.Compare) and len(cj.ops) == 1 and isinstance(cj.ops[0], ast.Is) and isinstance(cj.comparators[0], ast.Constant) and \
+                cj.comparators[0].value is None and isinstance(cj.left, ast.Call) and isinstance(cj.left.func, ast.Name) and cj.left.func.id == 'next' and \
+                len(cj.left.args) == 2 and isinstance(cj.left.args[1], ast.Constant) and cj.left.args[1].value is None and missing_gen(cj.left.args[0]):
+            return True
+        return False
     chk_loops = []
     for l in walk_no_nested(lw):
         if isinstance(l, ast.For) and isinstance(l.iter, ast.Name) and l.iter.id == iparam_ and isinstance(l.target, ast.Name) and \
-                any(isinstance(c, ast.Call) and call_name(c) in ('node_exists', '_find_node', 'get_node_properties') and
-                    any(isinstance(x, ast.Name) and x.id == l.target.id for x in ast.walk(c)) for c in ast.walk(l)) and \
-                any(isinstance(x, ast.Raise) for x in ast.walk(l)) and not any(isinstance(c, ast.Call) and call_name(c) in ('add_link', 'add_node') for c in ast.walk(l)):
-            chk_loops.append(l)
-    all_checks = [c for c in walk_no_nested(lw) if isinstance(c, ast.Call) and isinstance(c.func, ast.Name) and c.func.id in ('all', 'any') and
-                  any(isinstance(x, ast.Call) and call_name(x) == 'node_exists' for x in ast.walk(c))]
+                not any(isinstance(c, ast.Call) and call_name(c) in ('add_link', 'add_node') for c in ast.walk(l)) and \
+                not any(isinstance(x, (ast.Break, ast.Continue, ast.Return)) for x in ast.walk(l)):
+            # every iteration rejects an id that does not exist: a raise guarded by exactly "not exists(<loop variable>)"
+            for r_ in [x for x in ast.walk(l) if isinstance(x, ast.Raise)]:
+                _, cs_ = _enclosing(r_, l)
+                cjs_ = [canon(cj) for c_ in cs_ for cj in conjuncts(canon(c_))]
+                if len(cjs_) == 1 and isinstance(cjs_[0], ast.UnaryOp) and isinstance(cjs_[0].op, ast.Not) and exists_of(cjs_[0].operand, l.target.id):
+                    chk_loops.append(l)
     okl = False
     if ins_:
         inode = flow.node_of(lcfg, ins_[0])
@@ -424,10 +463,9 @@ def run(prog, rep):
             hn = [nd for nd in lcfg.nodes if nd.kind == 'test' and nd.tag == 'for' and nd.ast is l]
             if hn and inode is not None and hn[0].id in ldom.get(inode.id, set()):
                 okl = True
-        for c in all_checks:
-            cn_ = flow.node_of(lcfg, c)
-            if cn_ is not None and inode is not None and cn_.id in ldom.get(inode.id, set()):
-                okl = True
+        _, guards_ = _enclosing(ins_[0], lw)
+        if any(says_all_exist(cj) for g_ in guards_ for cj in conjuncts(canon(g_))):
+            okl = True
     rep.instance('R8', f'add_network_link_sliver: interface ids verified before the insert: {okl}')
     if not okl:
         rep.violation('R8', loc(apg_.module, lw0), 'ABCPropertyGraph.add_network_link_sliver', 'interface ids not verified before the Link node is inserted',
